@@ -405,11 +405,13 @@ func Gen(rng *rand.Rand, id int, p Profile) *Corpus {
 			if p.Binary && rng.Intn(12) == 0 {
 				content += "\x00x"
 			}
-			if used[nm+"\x00"+content] {
+			d := Doc{Repo: ri, Name: nm, Content: content, Lang: langs[rng.Intn(len(langs))]}
+			// documents are identified by (repository, name, stored content): skipped documents all
+			// store the same marker text
+			if used[nm+"\x00"+d.Effective()] {
 				continue
 			}
-			used[nm+"\x00"+content] = true
-			d := Doc{Repo: ri, Name: nm, Content: content, Lang: langs[rng.Intn(len(langs))]}
+			used[nm+"\x00"+d.Effective()] = true
 			nb := len(c.Repos[ri].Branches)
 			for b := 0; b < nb; b++ {
 				if rng.Intn(2) == 0 {
@@ -522,4 +524,20 @@ func (c *Corpus) PickSymbolPattern(rng *rand.Rand) string {
 		}
 	}
 	return c.PickPattern(rng, false)
+}
+
+// DedupDocs drops documents that cannot be told apart through the API from an earlier one:
+// same repository entry, name and stored content (e.g. two skipped documents with one name).
+func (c *Corpus) DedupDocs() {
+	seen := map[string]bool{}
+	out := c.Docs[:0]
+	for _, d := range c.Docs {
+		k := fmt.Sprintf("%d\x00%s\x00%s", d.Repo, d.Name, d.Effective())
+		if seen[k] {
+			continue
+		}
+		seen[k] = true
+		out = append(out, d)
+	}
+	c.Docs = out
 }
